@@ -91,6 +91,11 @@ fn dump<'tcx>(tcx: TyCtxt<'tcx>) -> J {
             DefKind::Const { .. } | DefKind::AssocConst { .. } | DefKind::Static { .. } => {
                 if let Some(c) = cx.const_item(did) {
                     consts.push(c)
+                } else if !matches!(tcx.def_kind(did), DefKind::Static { .. }) && tcx.hir_maybe_body_owned_by(ldid).is_some() {
+                    let ty = tcx.type_of(did).instantiate_identity().skip_norm_wip();
+                    if ty.is_integral() || ty.is_bool() {
+                        functions.push(cx.function(did, tcx.def_kind(did)));
+                    }
                 }
             }
             _ => {}
@@ -154,7 +159,10 @@ impl<'tcx> Cx<'tcx> {
 
     fn function(&mut self, did: DefId, kind: DefKind) -> J {
         let tcx = self.tcx;
-        let body: &Body<'tcx> = tcx.optimized_mir(did);
+        // generic constants (`const TAG: usize = if Self::IS_MULTISHOT { .. } else { .. }` in a trait) cannot be
+        // evaluated here; their initialiser is dumped like a function body so it can be specialised by value
+        let is_const = matches!(kind, DefKind::Const { .. } | DefKind::AssocConst { .. });
+        let body: &Body<'tcx> = if is_const { tcx.mir_for_ctfe(did.expect_local()) } else { tcx.optimized_mir(did) };
         let tenv = TypingEnv::post_analysis(tcx, did);
         let mut v: Vec<(&'static str, J)> = Vec::new();
         v.push(("path", J::Str(self.path(did))));
@@ -162,11 +170,14 @@ impl<'tcx> Cx<'tcx> {
             DefKind::Fn => "fn",
             DefKind::AssocFn => "assoc",
             DefKind::Closure => "closure",
+            DefKind::Const { .. } | DefKind::AssocConst { .. } => "const",
             _ => "?",
         })));
         v.push(("span", self.span(tcx.def_span(did))));
         v.push(("body_span", self.span(body.span)));
-        if !matches!(kind, DefKind::Closure) {
+        if is_const {
+            v.push(("unsafe", J::Bool(false)));
+        } else if !matches!(kind, DefKind::Closure) {
             let sig = tcx.fn_sig(did).instantiate_identity().skip_binder();
             v.push(("unsafe", J::Bool(!sig.safety().is_safe())));
             v.push(("vis", J::Str(format!("{:?}", tcx.visibility(did)))));
